@@ -137,7 +137,7 @@ def generate(rng):
             rows = rng.choice([1, 2, 3, 4, 6])
             ops.append({"op": "set_col", "b": b, "c": c, "col": col, "cells": [gen_cell(rng, p_awk) for _ in range(rows)],
                         "rows": "match" if rng.random() < (0.85 if not faulty else 0.6) else "own",
-                        "how": rng.choice(["list", "array", "column", "column_mask", "scalar", "tuple", "column_tuple"])})
+                        "how": rng.choice(["list", "array", "column", "column_mask", "scalar", "tuple", "column_tuple", "column_data"])})
             if b in sk and c in sk[b] and col not in sk[b][c]:
                 sk[b][c].append(col)
         elif r < 0.46:
@@ -223,7 +223,12 @@ class Store:
                 return np.array(data, dtype=str)
             if how == "scalar" and len(data) == 1:
                 return data[0]
+            if how == "column_data":
+                return self.Column(self.Data(np.array(data, dtype=str)))  # the documented "formal way"
             return self.Column(np.array(data, dtype=str))
+        if how == "column_data":
+            # Column(Data(...)) without a mask: '.' and '?' entries stand for the mask states, as in a list
+            return self.Column(self.Data(strs))
         if how == "list":
             return strs
         if how == "tuple":
